@@ -21,10 +21,26 @@ class Op:
         self.nan_default, self.excl_nan, self.may_raise = nan_default, excl_nan, may_raise
         self.chain, self.out, self.cond, self.weight, self.identity = chain, out, cond, (2 if identity is not None else weight), identity
 
+def _no_overlap(p):
+    """sufficient test: sorted by stride, every stride exceeds the extent of the dimensions below it"""
+    reach = 0
+    for st, n in sorted((st, n) for st, n in zip(p.stride(), p.size()) if n > 1):
+        if st <= reach: return False
+        reach += st * (n - 1)
+    return True
+
 def _clone_apply(f):
-    """in-place method applied to a fresh clone; the method must return self"""
+    """in-place method applied to a fresh clone; the method must return self.  Tensor.clone() makes sliced
+    storage contiguous, so when the operand's physical tensor is non-contiguous (and does not overlap: in-place
+    writes through overlapping views are undefined in torch itself) the clone gets a copy of the storage WITH the
+    operand's strides: the in-place operation runs on the layout the caller supplied"""
     def run(ts, args):
         t = ts[0].clone()
+        p = ts[0].physical
+        if not p.is_contiguous() and _no_overlap(p):
+            from fggs.indices import PatternedTensor
+            q = torch.empty_strided(p.size(), p.stride(), dtype=p.dtype); q.copy_(p)
+            t = PatternedTensor(q, t.paxes, t.vaxes, t.default)
         r = f(t, *args)
         if r is not t: raise AssertionError("in-place operation did not return self")
         return t
@@ -372,6 +388,9 @@ def run_step(op, tensors, denses, args, mon):
         if rexc is not None: return Outcome("both_raise", exc=ex), None, None
         if isinstance(ex, op.may_raise) and not (len(args) > 1 and args[1] is True):
             return Outcome("allowed_raise", exc=ex), None, None
+        if op.name == "view" and isinstance(ex, RuntimeError) and not all(t.physical.is_contiguous() for t in tensors):
+            # Tensor.view() itself refuses storage whose strides cannot be regrouped; only contiguous storage must succeed
+            return Outcome("allowed_raise", exc=ex), None, None
         return Outcome("raise", detail=repr(ex), exc=ex), None, None
     finally:
         mon.active = False
@@ -539,6 +558,7 @@ def special_copy_(rng, mon):
         n = math.prod(k for _, k in dst["paxes"])
         src = dict(types=dst["types"], vaxes=[sh(e) for e in dst["vaxes"]], paxes=[(k + 40, m) for k, m in dst["paxes"]],
                    default=src["default"], dtype=src["dtype"], values=U.gen_values(n, rng, "bool" if src["dtype"] == "bool" else "float"))
+    relayout([src], rng)
     case = dict(op="copy_", args=[], operands=[dst, src])
     w = U.World()
     d = U.build_tensor(dst, w); s = U.build_tensor(src, w)
@@ -598,6 +618,7 @@ def special_stack(rng, mon):
         if onehot_inputs and rng.random() < 0.7: u = U.onehot_like(u, rng, keep=0.3)
         specs.append(u)
     dim = rng.randrange(len(first["types"]) + 1)
+    relayout(specs, rng)
     case = dict(op="stack", args=[dim], operands=specs)
     w = U.World()
     ts = [U.build_tensor(s, w) for s in specs]; ds = [U.dense_ref(s) for s in specs]
@@ -637,6 +658,7 @@ def special_project(rng, mon):
         vax2, _ = U.gen_pattern(t["types"], rng, pl)
     pax2 = U.fv_list(vax2); rng.shuffle(pax2)
     if math.prod(n for _, n in pax2) > 200: return None, None
+    relayout([t], rng)
     case = dict(op="project", args=[pax2, vax2], operands=[t])
     w = U.World()
     tt = U.build_tensor(t, w); d = U.dense_ref(t)
@@ -662,6 +684,9 @@ def special_project(rng, mon):
 SPECIALS = {"copy_": special_copy_, "stack": special_stack, "project": special_project}
 
 # ---------------------------------------------------------------------------- driver
+VIEW_OPS = ["expand", "expand", "expand", "expand_as", "getitem", "transpose", "permute", "T", "flatten", "unsqueeze",
+            "freshen", "detach", "reshape", "dim_to_dense", "any"]
+
 def gen_case(op, rng, types, pat=None):
     for _ in range(20):
         specs = gen_operands(op, rng, types, pat)
@@ -686,15 +711,31 @@ def gen_case(op, rng, types, pat=None):
                 sp["vaxes"] = list(sp["vaxes"]); sp["vaxes"][d] = sp["vaxes"][cand[0]]
                 sp["paxes"] = U.fv_list(sp["vaxes"]); n = math.prod(k for _, k in sp["paxes"])
                 sp["values"] = U.gen_values(n, rng, "bool" if sp["dtype"] == "bool" else "float")
+        relayout(specs, rng)
         return dict(op=op.name, args=args, operands=specs)
     return None
+
+P_LAYOUT = 0.35
+def relayout(specs, rng, p=None):
+    """storage layout of the operands' physical tensors (see _c06_util.add_layout): with probability P_LAYOUT per
+    operand the physical tensor is a partially / fully expanded (stride-0) view, a permuted, sliced, offset or
+    overlapping view of a larger buffer, the way a caller may supply it; the values of the spec are rewritten
+    so that the layout can hold them, hence dense_ref and the wire format still describe the logical contents"""
+    for sp in specs:
+        if "layout" not in sp and rng.random() < (P_LAYOUT if p is None else p): U.add_layout(sp, rng)
+    return specs
 
 def gen_chain(rng, types):
     """a composition of 2..3 operations; later steps only see the shape/dtype of the running result"""
     # operations compared with a tolerance (or with cells excluded) may only end a composition: after them the
     # running reference and the implementation's value may legitimately differ in the last bit
     inexact = lambda o: o.tol > 0 or o.tol32 > 0 or o.excl_nan
-    first = rng.choice([o for o in OPS if o.chain and not inexact(o)])
+    if rng.random() < 0.4:
+        # histories: an operation that returns a VIEW of its operand's storage (expand() adds stride-0 dimensions,
+        # getitem / iter / any slice, permute / T / flatten / reshape regroup), then operations on that view
+        first = BYNAME[rng.choice(VIEW_OPS)]
+    else:
+        first = rng.choice([o for o in OPS if o.chain and not inexact(o)])
     case = gen_case(first, rng, types)
     if case is None: return None
     try:
@@ -719,7 +760,7 @@ def gen_chain(rng, types):
             u, _ = U.gen_tensor(rng, types=ts2, kind=("bool" if cur.dtype == torch.bool else "float"),
                                 dtype=("f32" if cur.dtype == torch.float32 else "f64"), pool=U.Pool(200 + 100 * len(chain)))
             if rng.random() < 0.15: u = U.onehot_like(u, rng, keep=0.25)
-            extra = [u]
+            extra = relayout([u], rng)
         try:
             with warnings.catch_warnings():
                 warnings.simplefilter("ignore")
